@@ -74,15 +74,31 @@ void run_case(Ctx &c) {
     g.grow(6, {10, 0, 0, 0, 0});
     { c.op("seed-colliding-names"); try { while (g.f.blockCount() < 2) g.f.createBlock(g.name(), "t"); Block b0 = g.f.getBlock(0), b1 = g.f.getBlock(1);
         for (const char *nm : {"same", "same2"}) { if (!b0.hasSource(nm)) b0.createSource(nm, "t"); if (!b1.hasSource(nm)) b1.createSource(nm, "t"); if (!b0.hasDataArray(nm)) b0.createDataArray(nm, "t", DataType::Double, NDSize{2}); if (!b1.hasDataArray(nm)) b1.createDataArray(nm, "t", DataType::Double, NDSize{2}); if (!b0.hasTag(nm)) b0.createTag(nm, "t", {1.0}); if (!b1.hasTag(nm)) b1.createTag(nm, "t", {1.0}); if (!b0.hasGroup(nm)) b0.createGroup(nm, "t"); if (!b1.hasGroup(nm)) b1.createGroup(nm, "t"); } } catch (std::exception &e) { c.note(std::string("seed-collide:") + e.what()); } }
+    // source and section trees with several children per level, nested members attached to / used as metadata by other entities
+    { c.op("seed-trees"); try { Block b0 = g.f.getBlock(0);
+        for (int t = 0; t < 2; t++) { Source root = b0.createSource("tree" + str(t), "t"); int nc = (int)r.range(2, 4); for (int i = 0; i < nc; i++) { Source ch = root.createSource("c" + str(i), "t"); int ng = (int)r.u(3); for (int j = 0; j < ng; j++) ch.createSource("g" + str(j), "t"); } }
+        for (int t = 0; t < 2; t++) { Section root = g.f.createSection("stree" + str(t), "t"); int nc = (int)r.range(2, 4); for (int i = 0; i < nc; i++) { Section ch = root.createSection("c" + str(i), "t"); if (r.chance(0.5)) ch.createProperty("p", Variant(1.0)); int ng = (int)r.u(3); for (int j = 0; j < ng; j++) ch.createSection("g" + str(j), "t"); } }
+      } catch (std::exception &e) { c.note(std::string("seed-trees:") + e.what()); } }
     g.grow((int)r.range(25, 45), {8, 1, 12, 1, 0});
+    // attach nested tree members to random holders
+    { c.op("attach-tree-members"); try { Block b0 = g.f.getBlock(0);
+        for (int k = 0; k < 8; k++) { Source s; if (!g.anySource(b0, s)) break; while (r.chance(0.6) && s.sourceCount()) s = s.getSource(r.u(s.sourceCount())); DataArray a; Tag t; MultiTag m; Group gr; int w = (int)r.u(4);
+            if (w == 0 && g.anyArray(b0, a)) a.addSource(s); else if (w == 1 && g.anyTag(b0, t)) t.addSource(s); else if (w == 2 && g.anyMTag(b0, m)) m.addSource(s); else if (w == 3 && g.anyGroup(b0, gr)) gr.addSource(s); }
+        for (int k = 0; k < 8; k++) { Section s; if (!g.anySection(s)) break; while (r.chance(0.6) && s.sectionCount()) s = s.getSection(r.u(s.sectionCount())); DataArray a; Tag t; Source so; int w = (int)r.u(4);
+            if (w == 0 && g.anyArray(b0, a)) a.metadata(s); else if (w == 1 && g.anyTag(b0, t)) t.metadata(s); else if (w == 2 && g.anySource(b0, so)) so.metadata(s); else if (w == 3) { Section o; if (g.anySection(o) && o.id() != s.id()) o.link(s); } }
+      } catch (std::exception &e) { c.note(std::string("attach:") + e.what()); } }
     if (r.chance(0.5)) { c.op("close+reopen"); g.close(); g.open(FileMode::ReadWrite); g.grow((int)r.range(8, 20), {4, 1, 12, 1, 0}); }   // links made before and after a reopen
-    int ndel = (int)r.range(1, 4);
+    int ndel = (int)r.range(2, 5);
     for (int k = 0; k < ndel; k++) {
         std::vector<Victim> vs; collect(g, vs); if (vs.empty()) break;
         // prefer heavily linked targets half of the time
         Observer ob; ONode t0 = ob.file(g.f);
         Victim v = vs[r.u(vs.size())];
-        if (r.chance(0.5)) { std::vector<std::string> lines = flatten(t0); size_t best = 0; for (int tries = 0; tries < 6; tries++) { Victim &cand = vs[r.u(vs.size())]; size_t m = 0; for (auto &l : lines) if (l.find("->") != std::string::npos && l.find(cand.id) != std::string::npos) m++; if (m > best) { best = m; v = cand; } } }
+        int pickmode = (int)r.u(3);
+        if (pickmode == 2) {   // the candidate with the largest subtree that something points into
+            size_t best = 0; std::vector<std::string> lines = flatten(t0);
+            for (int tries = 0; tries < 8; tries++) { Victim &cand = vs[r.u(vs.size())]; const ONode *cn = find_node(t0, cand.id); if (!cn) continue; std::vector<std::string> ids; collect_ids(*cn, ids); size_t m = 0; for (auto &l : lines) if (l.find("->") != std::string::npos) for (size_t q = 1; q < ids.size(); q++) if (l.find(ids[q]) != std::string::npos) { m++; break; } m = m * 10 + ids.size(); if (m > best) { best = m; v = cand; } }
+        } else if (pickmode == 1) { std::vector<std::string> lines = flatten(t0); size_t best = 0; for (int tries = 0; tries < 6; tries++) { Victim &cand = vs[r.u(vs.size())]; size_t m = 0; for (auto &l : lines) if (l.find("->") != std::string::npos && l.find(cand.id) != std::string::npos) m++; if (m > best) { best = m; v = cand; } } }
         const ONode *node = find_node(t0, v.id);
         if (!node) { c.note("victim-not-in-snapshot:" + v.kind); continue; }
         std::vector<std::string> dead_v; collect_ids(*node, dead_v); std::set<std::string> dead(dead_v.begin(), dead_v.end());
